@@ -404,6 +404,27 @@ def gen(repo):
     s += "Definition bailout_exit : N := %d.\n" % cparse.eval_const(cparse.parse_expr(m.group(1)), env)
     s += "Definition bailout_sub_order : list string := %s%%string.\n" % coq_strlist(
         call_order(bb[bb.index(br) + len(br):], ["promote", "xraise", "pthread_exit"]))
+    # which mask halt() waits with: the one cli() saved (SIGPIPE/SIGXFSZ stay blocked while the main thread waits, so a
+    # signal promoted by a failing worker is only taken after cleanup()), or something else
+    m = re.search(r"sigsuspend\s*\(\s*&\s*(\w+)\s*\)", hb)
+    if not m:
+        raise ParseError("halt: sigsuspend(&mask) not found")
+    halt_mask = m.group(1)
+    _, cb0 = cparse.find_function_body(sig_c, "cli")
+    m = re.search(r"xmask\s*\(\s*SIG_BLOCK\s*,\s*&\s*handled\s*,\s*([^)]*)\)", cb0)
+    if not m:
+        raise ParseError("cli: xmask(SIG_BLOCK, &handled, ...) not found")
+    cli_saved = norm(m.group(1)).lstrip("&")
+    _, ss = cparse.find_function_body(sig_c, "setup_signals")
+    m = re.search(r"xmask\s*\(\s*SIG_BLOCK\s*,\s*&\s*(\w+)\s*,", ss)
+    setup_blocked = m.group(1) if m else ""
+    # the saved mask must not be touched anywhere else (declaration, cli, halt: three mentions)
+    mentions = len(re.findall(r"\b%s\b" % re.escape(halt_mask), sig_c))
+    ok = halt_mask == cli_saved and cli_saved not in ("NULL", "0", "") and setup_blocked == "blocked" and mentions == 3
+    s += "Definition halt_suspend_mask : string := %s.\n" % coq_str(halt_mask)
+    s += "Definition cli_saved_mask : string := %s.\n" % coq_str(cli_saved)
+    s += "Definition setup_blocked_set : string := %s.\n" % coq_str(setup_blocked)
+    s += "Definition fatal_signals_blocked_in_halt : bool := %s.\n" % ("true" if ok else "false")
     _, tb = cparse.find_function_body(sig_c, "terminate")
     s += "Definition terminate_order : list string := %s%%string.\n" % coq_strlist(call_order(tb, ["xaction", "xraise", "xmask", "_exit"]))
     _, cb = cparse.find_function_body(sig_c, "cli")
